@@ -23,4 +23,29 @@ PROPS = {
         "assumptions": [RIO_MODELLED, "record sizes fit 64-bit header fields", "seeks go back to record boundaries (what the property states)"],
         "explanation": "proof over the model for all inputs; correspondence run ties the model to the current source",
     },
+    "C16": {
+        "title": "Skip-list map and merge heap behave as a sorted map and a sorted k-way merge",
+        "streams": [{"name": "skip", "quick": 600, "thorough": 20000, "thorough_seeds": 2},
+                    {"name": "pq", "quick": 2000, "thorough": 100000, "thorough_seeds": 2}],
+        "technique": "Lean 4 proof (descent invariant of findGreaterOrEqual; binary-heap order invariant + multiset bookkeeping) + differential correspondence model/Go",
+        "level": "proof",
+        "design_ref": "§5 C16",
+        "text": "Theorems for ALL insertion orders of distinct keys, ALL node heights >= 1 and ANY consistent comparator: the skip list's size/Get/Contains/Iterator/IteratorStartingAt/IteratorBetween equal the sorted map's answers (lower > upper rejected, duplicate insert refused); for ANY number of non-descending inputs the heap (upHeap/downHeap/Next as coded, slot 0 unused) returns a permutation of all (key,value,input) triples in non-descending key order and keeps each input's order. Tied to the Go code by running the same insertion sequences / input lists through both (all permutations of up to 5 (quick) / 7 (thorough) keys, random beyond; int, string and byte comparators; every probe and bound pair).",
+        "note": "Trusted: Lean kernel, three standard axioms, harness. Modelled: the skip list is represented by its level-0 order with explicit heights (next node at level l = next node of height > l); pointer surgery of Insert is therefore tied only by the correspondence run, the descent and the iterators are as coded. math/rand heights are a parameter (quantified).",
+        "trusted_base": COMMON_TB + ["modelled, not verified: Go pointer manipulation inside skiplist.Insert (abstracted to a height-annotated ordered list), math/rand"],
+        "assumptions": ["comparator is a consistent total preorder (LawfulCmp)", "inputs of the queue are non-descending"],
+        "explanation": "proof over the model for all inputs; correspondence run ties the model to the current source",
+    },
+    "C12": {
+        "title": "A cut or header-damaged RecordIO file yields only genuine records, in order",
+        "streams": [{"name": "riodmg", "quick": 60, "thorough": 1500, "thorough_seeds": 2}],
+        "technique": "Lean 4 proof (prefix lemma for every cut length; CRC-32C single-byte law via a kernel-checked 256-entry table fact) + differential correspondence on damaged files",
+        "level": "proof",
+        "design_ref": "§5 C12",
+        "text": "Theorems for ALL record lists, compressors and cut lengths n: a file cut at n reads (sequentially and at every recorded offset) as exactly the records wholly inside the first n bytes, then EOF/error; CRC-32C changes under every single-byte change; every frame-preserving alteration of any header byte makes both readers fail on that record (partial: continuation-bit flips move the frame and are covered by the correspondence run + oracle only); unsupported file-header versions/compression codes are rejected. The correspondence run reads every truncation and header alteration (all 255 values on short files in the thorough tier) with both real readers and the model and evaluates the property oracle on the real results.",
+        "note": "Trusted: Lean kernel, three standard axioms, harness. The frame-shifting residual (a crafted payload that embeds the CRC of the shifted header) is a 32-bit coincidence by format design; not reachable by the generators, would be reported with its input if hit.",
+        "trusted_base": COMMON_TB + [RIO_MODELLED],
+        "assumptions": [RIO_MODELLED, "record sizes fit 64-bit header fields"],
+        "explanation": "proof over the model for all inputs; correspondence run ties the model to the current source",
+    },
 }
